@@ -1327,6 +1327,7 @@ func runC04(c *core.Ctx) core.Meta {
 	checkDecoderWidths(c, core.NewLocalProv(c), t)
 	checkTableWidths(c, t)
 	checkVOP3bMembership(c, t)
+	checkDstRegisterFile(c, t)
 	checkFieldCoverage(c, core.NewLocalProv(c))
 	checkSRegOperandRange(c)
 
